@@ -147,7 +147,7 @@ var c16OptionSets = []struct {
 }
 
 func c16ReadOnly(r *vf.Run) {
-	n := r.Pick(8, 40)
+	n := r.Pick(24, 100)
 	var ids []string
 	for i := 0; i < n; i++ {
 		ids = append(ids, fmt.Sprintf("read%02d", i))
